@@ -273,7 +273,7 @@ pub fn check(tier: &str) -> i32 {
     let mut rep = Report::new("C20", tier, "model_checking");
     let thorough = rep.thorough();
     rep.assume("observed only through the public get_metrics; accept_unsolicited(true) legitimately keeps everything it hears until the TTL passes");
-    let depth = if thorough { 3 } else { 2 };
+    let depth = if thorough { 4 } else { 3 };
     let m = OPS.len() as u64;
     let mut nseq = 0u64;
     let mut b = 1u64;
